@@ -32,7 +32,11 @@ LEAN_TARGETS = ["SpecVerif.Props.C08"]
 AUDIT = [("SpecVerif.Props.C08", "SpecVerif.Props.C08")]
 DRIVER = "Drivers/Heap.lean"
 REQUIRED_THEOREMS = [
+    "SpecVerif.Props.C08.init_fresh",
+    "SpecVerif.Props.C08.init_disjoint",
+    "SpecVerif.Props.C08.peers_isolated",
     "SpecVerif.Props.C08.reset_is_fresh",
+    "SpecVerif.Props.C08.reset_is_fresh_inplace",
     "SpecVerif.Props.C08.reset_eq_fresh_partial",
 ]
 RULE = (
@@ -52,7 +56,13 @@ ASSUMPTIONS = [
     "default factories are pure and return a new object on every call; user callbacks are pure",
     "bool values are not generated (Python identifies True with 1)",
 ]
-OPEN_STATEMENTS = []
+OPEN_STATEMENTS = [
+    "reset_eq_fresh_Full (Props/C08.lean): the value installed by del/reset has the same CONTENT as the attribute of a "
+    "newly constructed instance -- proved: both are produced by the same model computation (reset_eq_fresh_partial: "
+    "default lookup along the class chain, then the preparer, then the raw write) and are freshly allocated "
+    "(reset_is_fresh*); missing: determinism of that computation up to renaming of fresh identities. Checked on every "
+    "run by the oracle (reset value vs a fresh instance) and by the correspondence",
+]
 EXHAUSTIVE = {"quick": False, "thorough": False}
 
 PROFILE = {
@@ -138,19 +148,25 @@ def oracle(case):
             if v is not skip_obj and id(v) not in m
         }
 
+    def rebase_ctor_args():
+        """(Re)take the snapshots of the constructor arguments, with the objects the
+        caller has lent by reference elsewhere masked."""
+        for i, (o, _snap) in list(ctor_args.items()):
+            ctor_args[i] = (o, H.masked_snapshot(o, lent))
+
     def check_ctor_args(world, what, direct_root):
         for i, (o, snap) in list(ctor_args.items()):
             if direct_root is not None and (o is direct_root or i in H.reachable_ids(direct_root)) and (
                 id(direct_root) in ctor_args
             ):
-                ctor_args[i] = (o, H.deep_snapshot(o))  # mutated directly by the caller
+                ctor_args[i] = (o, H.masked_snapshot(o, lent))  # mutated directly by the caller
                 continue
             if i in lent:
-                ctor_args[i] = (o, H.deep_snapshot(o))
+                ctor_args[i] = (o, H.masked_snapshot(o, lent))
                 continue
-            if H.deep_snapshot(o) != snap:
+            if H.masked_snapshot(o, lent) != snap:
                 violations.append(f"`{what}` changed an object that had been passed to a constructor")
-                ctor_args[i] = (o, H.deep_snapshot(o))
+                ctor_args[i] = (o, H.masked_snapshot(o, lent))
 
     def check_reset(world, target, attr_nums, what):
         """(d): reset value == fresh instance's value, and fresh."""
@@ -225,13 +241,14 @@ def oracle(case):
                     continue
                 spec = meta.attrs.get(H.attr_name(int(a))) if a.isdigit() else None
                 if spec is not None and spec.do_not_copy:
-                    H.reachable_ids(o, lent)
+                    lent.update(H.reachable_ids(o))
                 else:
                     for i, x in H.reachable_ids(o).items():
-                        ctor_args.setdefault(i, (x, H.deep_snapshot(x)))
+                        ctor_args.setdefault(i, (x, None))
         else:
             for o in arg_objs:
-                H.reachable_ids(o, lent)
+                lent.update(H.reachable_ids(o))
+        rebase_ctor_args()
         before_peers = None
         if ip and direct_root is not None:
             before_peers = peers_snapshot(world, direct_root)
@@ -274,9 +291,10 @@ def oracle(case):
         for t in toks[3:]:
             if t.startswith("@"):
                 try:
-                    H.reachable_ids(world.resolve(t), lent)
+                    lent.update(H.reachable_ids(world.resolve(t)))
                 except (LookupError, ValueError):
                     pass
+        rebase_ctor_args()
         before_defaults = defaults_snapshot(world)
         before_peers = peers_snapshot(world, root)
         H.run_line(world, line)
